@@ -1014,6 +1014,14 @@ class Pool(BasePool[C]):
 
         self._schedule_transfer(from_block, conn, to_block)
 
+        if not from_block.count_conns() and from_block.count_waiters():
+            # The block has just given away its last connection while
+            # requests are still queued on it.  Line it up for one of the
+            # next released connections, like a request on a block without
+            # connections does in _acquire(); otherwise blocks that keep
+            # re-entering the waitlist would be served ahead of it forever.
+            self._new_blocks_waitlist[from_block] = True
+
         self._log_to_snapshot(
             dbname=to_block.dbname,
             event=label,
